@@ -337,16 +337,177 @@ fn exhaustive(out: &mut Out, depth: usize, max_handles: usize, prefix: &mut Vec<
     }
 }
 
+// ------------------------------------------------------------------ language-level stream
+//
+// Straight-line numbat programs over list variables, built from the standard library's list functions
+// (cons, cons_end, tail, take, drop, concat, reverse, head, len), with nested calls (temporaries are solely
+// owned: the in-place paths) and let-bound lists (shared: the copying paths). Request line `lang <stmt>;<stmt>;…`;
+// oracle: plain `Vec<i64>` semantics, and after every statement *every* variable still holds what it held.
+
+#[derive(Clone, Debug)]
+enum LE {
+    Var(usize),
+    Lit(Vec<i64>),
+    Cons(i64, Box<LE>),
+    ConsEnd(i64, Box<LE>),
+    Tail(Box<LE>),
+    Take(usize, Box<LE>),
+    Drop(usize, Box<LE>),
+    Concat(Box<LE>, Box<LE>),
+    Reverse(Box<LE>),
+}
+
+impl LE {
+    fn src(&self) -> String {
+        match self {
+            LE::Var(k) => format!("zl{}", k),
+            LE::Lit(xs) => format!("[{}]", xs.iter().map(|x| x.to_string()).collect::<Vec<_>>().join(", ")),
+            LE::Cons(x, e) => format!("cons({}, {})", x, e.src()),
+            LE::ConsEnd(x, e) => format!("cons_end({}, {})", x, e.src()),
+            LE::Tail(e) => format!("tail({})", e.src()),
+            LE::Take(n, e) => format!("take({}, {})", n, e.src()),
+            LE::Drop(n, e) => format!("drop({}, {})", n, e.src()),
+            LE::Concat(a, b) => format!("concat({}, {})", a.src(), b.src()),
+            LE::Reverse(e) => format!("reverse({})", e.src()),
+        }
+    }
+    /// `None` = the program fails with `tail` of an empty list
+    fn eval(&self, vars: &[Vec<i64>]) -> Option<Vec<i64>> {
+        Some(match self {
+            LE::Var(k) => vars[*k].clone(),
+            LE::Lit(xs) => xs.clone(),
+            LE::Cons(x, e) => { let mut v = vec![*x]; v.extend(e.eval(vars)?); v }
+            LE::ConsEnd(x, e) => { let mut v = e.eval(vars)?; v.push(*x); v }
+            LE::Tail(e) => { let v = e.eval(vars)?; if v.is_empty() { return None; } v[1..].to_vec() }
+            LE::Take(n, e) => { let v = e.eval(vars)?; v[..(*n).min(v.len())].to_vec() }
+            LE::Drop(n, e) => { let v = e.eval(vars)?; v[(*n).min(v.len())..].to_vec() }
+            LE::Concat(a, b) => { let mut v = a.eval(vars)?; v.extend(b.eval(vars)?); v }
+            LE::Reverse(e) => { let mut v = e.eval(vars)?; v.reverse(); v }
+        })
+    }
+}
+
+fn gen_le(rng: &mut Rng, nvars: usize, depth: usize, next: &mut i64) -> LE {
+    if depth == 0 || rng.chance(1, 5) {
+        if nvars > 0 && rng.chance(3, 4) {
+            return LE::Var(rng.below(nvars));
+        }
+        let n = rng.below(5);
+        return LE::Lit((0..n).map(|_| { *next += 1; *next }).collect());
+    }
+    let d = depth - 1;
+    let mut fresh = || { *next += 1; *next };
+    match rng.below(12) {
+        0 | 1 => { let x = fresh(); LE::Cons(x, Box::new(gen_le(rng, nvars, d, next))) }
+        2 | 3 | 4 => { let x = fresh(); LE::ConsEnd(x, Box::new(gen_le(rng, nvars, d, next))) }
+        5 | 6 => LE::Tail(Box::new(gen_le(rng, nvars, d, next))),
+        7 | 8 => LE::Take(rng.below(4), Box::new(gen_le(rng, nvars, d, next))),
+        9 => LE::Drop(rng.below(3), Box::new(gen_le(rng, nvars, d, next))),
+        10 => LE::Concat(Box::new(gen_le(rng, nvars, d, next)), Box::new(gen_le(rng, nvars, d, next))),
+        _ => LE::Reverse(Box::new(gen_le(rng, nvars, d, next))),
+    }
+}
+
+fn list_of(ctx: &mut numbat::Context, name: &str) -> Result<Vec<i64>, String> {
+    use numbat::value::Value;
+    match catch(std::panic::AssertUnwindSafe(|| ctx.interpret(name, numbat::resolver::CodeSource::Internal))) {
+        Err(p) => Err(format!("panic {}", p)),
+        Ok(Err(e)) => Err(format!("error {}", e).replace('\n', " ")),
+        Ok(Ok((_, numbat::InterpreterResult::Value(Value::List(l))))) => {
+            let mut v = Vec::new();
+            for x in l.iter() {
+                match x {
+                    Value::Quantity(q) => v.push(q.unsafe_value().to_f64().round() as i64),
+                    _ => return Err("non-numeric element".into()),
+                }
+            }
+            Ok(v)
+        }
+        Ok(Ok(_)) => Err("not a list".into()),
+    }
+}
+
+fn run_lang(base: &numbat::Context, out: &mut Out, stmts: &[String]) {
+    // statements are `zlK = <expr source>`; the model is recomputed from the source text by the generator side, so
+    // a replayed line carries the expected values: `zlK = <src> => [..]` or `=> fail`
+    let text = format!("lang {}", stmts.join(";"));
+    let mut ctx = base.clone();
+    let mut expected: Vec<(String, Vec<i64>)> = Vec::new();
+    for st in stmts {
+        let Some((lhs, want)) = st.split_once(" => ") else { continue };
+        let Some((name, src)) = lhs.split_once(" = ") else { continue };
+        let code = format!("let {} = {}", name, src);
+        let r = catch(std::panic::AssertUnwindSafe(|| ctx.interpret(&code, numbat::resolver::CodeSource::Internal).map(|_| ())));
+        match (r, want) {
+            (Err(p), _) => { out.oracle_fail(&format!("lang-panic:{}", text), &text, &format!("`{}` panics: {}", code, p)); return; }
+            (Ok(Err(e)), "fail") => {
+                if !format!("{}", e).contains("mpty") {
+                    out.oracle_fail(&format!("lang:{}", text), &text, &format!("`{}` fails with `{}`, expected the empty-list error", code, format!("{}", e).replace('\n', " ")));
+                    return;
+                }
+                continue;
+            }
+            (Ok(Err(e)), _) => { out.oracle_fail(&format!("lang:{}", text), &text, &format!("`{}` fails: {}", code, format!("{}", e).replace('\n', " "))); return; }
+            (Ok(Ok(())), "fail") => { out.oracle_fail(&format!("lang:{}", text), &text, &format!("`{}` succeeds, a plain sequence gives the empty-list error", code)); return; }
+            (Ok(Ok(())), w) => {
+                let wv: Vec<i64> = w.trim_matches(|c| c == '[' || c == ']').split(',').filter_map(|x| x.trim().parse().ok()).collect();
+                expected.retain(|(n, _)| n != name);
+                expected.push((name.to_string(), wv));
+            }
+        }
+        // every variable holds what a plain immutable sequence would hold, and `len` agrees
+        for (n, wv) in &expected {
+            match list_of(&mut ctx, n) {
+                Ok(got) if &got == wv => {}
+                Ok(got) => { out.oracle_fail(&format!("lang:{}", text), &text, &format!("after `{}`: {} = {:?}, a plain sequence holds {:?}", code, n, got, wv)); return; }
+                Err(e) => { out.oracle_fail(&format!("lang:{}", text), &text, &format!("after `{}`: reading {}: {}", code, n, e)); return; }
+            }
+            let lcode = format!("len({}) == {}", n, wv.len());
+            match catch(std::panic::AssertUnwindSafe(|| ctx.interpret(&lcode, numbat::resolver::CodeSource::Internal))) {
+                Ok(Ok((_, numbat::InterpreterResult::Value(numbat::value::Value::Boolean(true))))) => {}
+                _ => { out.oracle_fail(&format!("lang:{}", text), &text, &format!("after `{}`: `{}` is not true", code, lcode)); return; }
+            }
+        }
+    }
+    out.case(&text, stmts.len() >= 3);
+    out.count("lang_cases");
+}
+
+fn gen_lang(rng: &mut Rng) -> Vec<String> {
+    let mut vars: Vec<Vec<i64>> = Vec::new();
+    let mut next = 0i64;
+    let mut stmts = Vec::new();
+    let n = 3 + rng.below(6);
+    for _ in 0..n {
+        let depth = 1 + rng.below(3);
+        let e = gen_le(rng, vars.len(), depth, &mut next);
+        // mostly a fresh variable, sometimes a redefinition of an existing one
+        let k = if !vars.is_empty() && rng.chance(1, 6) { rng.below(vars.len()) } else { vars.len() };
+        match e.eval(&vars) {
+            Some(v) => {
+                stmts.push(format!("zl{} = {} => [{}]", k, e.src(), v.iter().map(|x| x.to_string()).collect::<Vec<_>>().join(", ")));
+                if k == vars.len() { vars.push(v) } else { vars[k] = v }
+            }
+            None => stmts.push(format!("zl{} = {} => fail", k, e.src())),
+        }
+    }
+    stmts
+}
+
 fn main() {
     let args = Args::parse();
     let mut out = Out::new(&args);
-    out.rule = "random operation sequences (new/with_capacity/clone/drop/push_front/push_back/tail/head, values 0..2) over up to 6 simultaneously live handles, 40 ops each, preceded by the committed corpus; thorough adds all sequences of length <= 6 over <= 3 live handles. distinct = distinct op-sequence text; non-trivial = at least 3 ops and some step with shared storage (strong count >= 2) or a view".into();
+    out.rule = "random operation sequences (new/with_capacity/clone/drop/push_front/push_back/tail/head, values 0..2) over up to 6 simultaneously live handles, 40 ops each, preceded by the committed corpus; thorough adds all sequences of length <= 6 over <= 3 live handles. Plus straight-line numbat programs of 3-8 list definitions built from cons, cons_end, tail, take, drop, concat, reverse (nested calls = solely owned temporaries, let-bound lists = shared), every variable re-read after every statement and compared with a plain sequence. distinct = distinct op-sequence text; non-trivial = at least 3 ops and some step with shared storage (strong count >= 2) or a view".into();
 
     if let Some(p) = &args.replay {
         for l in read_lines(p) {
             if let Some(rest) = l.strip_prefix("run ") {
                 let ops: Vec<Op> = rest.split(';').filter_map(Op::parse).collect();
                 emit(&mut out, &ops, true);
+            } else if let Some(rest) = l.strip_prefix("lang ") {
+                let base = nvh::qty::prelude_ctx();
+                let stmts: Vec<String> = rest.split(';').map(|x| x.to_string()).collect();
+                run_lang(&base, &mut out, &stmts);
             }
         }
         out.finish();
@@ -375,6 +536,15 @@ fn main() {
         let mh = 2 + (i % 5);
         let ops = random_seq(&mut rng, len, mh);
         emit(&mut out, &ops, true);
+    }
+    // language-level stream: the standard library's list functions over shared and solely owned lists
+    {
+        let base = nvh::qty::prelude_ctx();
+        let mut lrng = rng.fork(5);
+        for _ in 0..args.count(400, 6000) {
+            let stmts = gen_lang(&mut lrng);
+            run_lang(&base, &mut out, &stmts);
+        }
     }
     if args.tier == "thorough" {
         let mut total = 0usize;
